@@ -25,7 +25,7 @@ from . import obs
 VERIF = Path(__file__).resolve().parent.parent
 REPO = Path(os.environ.get("VERIF_REPO", "/repo"))
 PY = os.environ.get("VERIF_PYTHON", "/venv/bin/python")
-EVIDENCE = VERIF / "evidence"
+EVIDENCE = Path(os.environ.get("VERIF_EVIDENCE_DIR") or (VERIF / "evidence"))
 REPLAYS = EVIDENCE / "replays"
 KNOWN = VERIF / "known_findings.json"
 
